@@ -34,7 +34,7 @@ def check(pid, tier, seed):
     total, diffs, bad_view, bad_ord, shapes, samples = 0, [], [], [], set(), []
     for s, n, b in runs:
         fin, fimpl, fmodel, ford = [os.path.join(d, x) for x in ("view_in.txt", "view_impl.txt", "view_model.txt", "view_ord.txt")]
-        q = C.run([C.HARNESS, "mdnsview", "-seed", str(s), "-n", str(n), "-bursts", str(b), "-in", fin, "-impl", fimpl, "-ord", ford], cwd=d, timeout=3600)
+        q = C.run([C.HARNESS, "mdnsview", "-seed", str(s), "-n", str(n), "-bursts", str(b), "-in", fin, "-impl", fimpl, "-ord", ford], cwd=d, timeout=C.engine_timeout())
         if q.returncode != 0:
             R.violation({"property": pid, "kind": "harness mdnsview crashed (panic in processMdnsEntry?)", "detail": (q.stdout or "")[-2000:]}, "crash")
             continue
